@@ -583,7 +583,6 @@ func processFile(root, path string, isCmd bool) error {
 	}
 	// runtime.Gosched() -> zzsim.Gosched(), runtime.SetFinalizer -> zzsim.SetFinalizer
 	keepRuntime := false
-	_ = keepRuntime
 	ast.Inspect(f, func(n ast.Node) bool {
 		if c, ok := n.(*ast.CallExpr); ok {
 			if se, ok := c.Fun.(*ast.SelectorExpr); ok && se.Sel.Name == "Gosched" {
@@ -591,6 +590,16 @@ func processFile(root, path string, isCmd bool) error {
 					id.Name = "zzsim"
 					in.used = true
 					rep.Gosched = append(rep.Gosched, rel)
+				}
+			}
+			if se, ok := c.Fun.(*ast.SelectorExpr); ok && se.Sel.Name == "SetFinalizer" && len(c.Args) == 2 {
+				if id, ok := se.X.(*ast.Ident); ok && id.Name == "runtime" && id.Obj == nil {
+					// the finalizer is queued by the runtime and executed as a
+					// simulated task at the next forced GC
+					id.Name = "zzsim"
+					in.used = true
+					rep.Finalizers = append(rep.Finalizers, fmt.Sprintf("%s:%d", rel, fset.Position(c.Pos()).Line))
+					keepRuntime = true
 				}
 			}
 		}
@@ -720,7 +729,7 @@ func processFile(root, path string, isCmd bool) error {
 		}
 	}
 
-	if len(rep.Gosched) > 0 && rep.Gosched[len(rep.Gosched)-1] == rel {
+	if keepRuntime || len(rep.Gosched) > 0 && rep.Gosched[len(rep.Gosched)-1] == rel {
 		// keep the "runtime" import used
 		f.Decls = append(f.Decls, &ast.GenDecl{Tok: token.VAR, Specs: []ast.Spec{&ast.ValueSpec{
 			Names:  []*ast.Ident{ast.NewIdent("_")},
